@@ -36,7 +36,7 @@ COMPONENTS = {
 }
 ASSUMPTIONS = ['steps depend only on persisted state (arguments, context, persisted members)',
                'the same external resume values are replayed after each restore']
-EXPECTED_COUNTERS = ['crash:paused', 'kind:process', 'kind:workchain', 'crash:running', 'crash:waiting', 'crash:created', 'crash:double',
+EXPECTED_COUNTERS = ['crash:lagged_behind_checkpoint', 'crash:same_checkpoint_loaded_again', 'medium:persister:memory', 'medium:persister:pickle', 'probe:latest_checkpoint_written_after_tagged_one', 'crash:paused', 'kind:process', 'kind:workchain', 'crash:running', 'crash:waiting', 'crash:created', 'crash:double',
                      'crash:in_loop_body', 'crash:in_branch', 'restores>=3']
 PROGRAM_CFG = {
     'max_steps': 5,
